@@ -113,9 +113,10 @@ func canon(s []span) ([]span, error) {
 	allEmpty := true
 	// Merge overlapping/adjoining elements.
 	out := s[:0]
+	merged := make([]bool, len(s)) // Elements already folded into an earlier one.
 	for i := 0; i < len(s); i++ {
 		this := s[i]
-		if this.rank == empty {
+		if this.rank == empty || merged[i] {
 			continue
 		}
 		allEmpty = false
@@ -151,8 +152,11 @@ func canon(s []span) ([]span, error) {
 			if !equalPrerelease(this.min, this.max) || !equalPrerelease(this.min, next.min) || !equalPrerelease(this.min, next.max) {
 				continue
 			}
-			// We'll process the element now, so on the next outer loop, skip it.
-			i++
+			// We'll process the element now, so on the outer loop, skip it.
+			if merged[j] {
+				continue
+			}
+			merged[j] = true
 			if next.rank == empty {
 				continue
 			}
